@@ -501,6 +501,28 @@ func (c *Ctx) c06Index(f *ircFacts, fns []*load.FuncInfo, serverOnly func(*load.
 								if call, ok := ast.Unparen(be.Y).(*ast.CallExpr); ok && astx.Builtin(info, call) == "len" && sameX(call.Args[0]) && be.Op == token.LSS {
 									return true, "loop variable below len of the same operand"
 								}
+								// loop variable below len(P) with len(P) == C proven before the loop, target made with C
+								if call, ok := ast.Unparen(be.Y).(*ast.CallExpr); ok && astx.Builtin(info, call) == "len" && be.Op == token.LSS && len(call.Args) == 1 {
+									if d := uniqueDef(info, fi.Node(), X); d != nil {
+										if mk, ok := ast.Unparen(d).(*ast.CallExpr); ok && astx.Builtin(info, mk) == "make" && len(mk.Args) >= 2 {
+											if ml, ok := astx.ConstInt(info, mk.Args[1]); ok {
+												P := call.Args[0]
+												hv := g.VertexOf(y.Cond)
+												for _, fct := range g.FactsAt(hv) {
+													if nb, ok := lenFactBound(info, fi.Node(), fct, func(e2 ast.Expr) bool { return astx.Same(info, e2, P) }); ok && nb == ml {
+														if be2, ok := ast.Unparen(fct.Expr).(*ast.BinaryExpr); ok && (be2.Op == token.NEQ || be2.Op == token.EQL) {
+															if as, ok := y.Init.(*ast.AssignStmt); ok {
+																if loC, ok := astx.ConstInt(info, as.Rhs[0]); ok && loC >= 0 && len(defsOfIn(info, y.Body, o)) == 0 {
+																	return true, "loop variable below len of an operand of proven length " + itoa(int(ml)) + ", target made with that length"
+																}
+															}
+														}
+													}
+												}
+											}
+										}
+									}
+								}
 							}
 						}
 					}
